@@ -459,6 +459,24 @@ let cmd_margv args =
              | Message m -> "message " ^ ostr m))
   | _ -> failwith "margv: bad arguments"
 
+(* mtool <program name hex> <n> <namehex:contenthex>*n <arghex>*: the whole command composed in the model:
+   exit status and standard output *)
+let cmd_mtool args =
+  match args with
+  | prog :: n :: rest ->
+    let n = int_of_string n in
+    let rec split k l acc = if k = 0 then (List.rev acc, l) else (match l with x :: r -> split (k - 1) r (x :: acc) | [] -> failwith "mtool: too few arguments") in
+    let (entries, argv) = split n rest [] in
+    let table = List.map (fun e ->
+        match Stdlib.String.split_on_char ':' e with
+        | [nm; content] -> (cstr (hex_decode nm), bytes_of (hex_decode content))
+        | _ -> failwith "mtool: bad entry") entries in
+    let argv = List.map (fun x -> cstr (hex_decode x)) argv in
+    let (code, out) = tool_main_as (cstr (hex_decode prog)) (files_of table) argv in
+    emit (Printf.sprintf "exit %d" (int_of_n code));
+    emit ("stdout " ^ hex_encode (ostr out))
+  | _ -> failwith "mtool: bad arguments"
+
 (* lex <texthex> *)
 let token_str (t : token) : Stdlib.String.t =
   match t with
@@ -567,6 +585,7 @@ let dispatch cmd args =
   | "lex" -> cmd_mlex args
   | "mcli" -> cmd_mcli args
   | "margv" -> cmd_margv args
+  | "mtool" -> cmd_mtool args
   | "region" -> cmd_mregion args
   | "mvalid" -> cmd_mvalid args
   | _ -> emit ("unknown command " ^ cmd)
